@@ -261,7 +261,7 @@ def _install_counter_pre():
     def snapshot(self):
         tot = 0.0
         for g in self.feature_counter.values():
-            for v in g.values():
+            for v in g.data.values():
                 tot += v
         return tot
 
